@@ -162,6 +162,14 @@ func (r *coreRun) sharedAttrs(a, b int) slog.Attrs {
 	return v
 }
 
+func (r *coreRun) manyAttrs(n, first int) []slog.Attr {
+	res := make([]slog.Attr, 0, n)
+	for i := 0; i < n; i++ {
+		res = append(res, slog.Int(attrName(first+i), i+1))
+	}
+	return res
+}
+
 func (r *coreRun) bools(a int) []bool { return r.sc.BoolLists[a-1] }
 
 func (r *coreRun) layouts(a int) []string {
@@ -237,6 +245,8 @@ func (r *coreRun) set(l *slog.Entry, k string, a, b int) *slog.Entry {
 		return l.SetAttrs1(r.sharedAttrs(a, b))
 	case "SetKV":
 		return l.Set(attrName(a), b)
+	case "AttrsN":
+		return l.SetAttrs(r.manyAttrs(a, b)...)
 	case "Attrs0":
 		switch a % 4 {
 		case 0:
@@ -298,6 +308,8 @@ func (r *coreRun) with(l *slog.Entry, k string, a, b int) *slog.Entry {
 		return l.WithAttrs1(r.sharedAttrs(a, b))
 	case "SetKV":
 		return l.With(attrName(a), b)
+	case "AttrsN":
+		return l.WithAttrs(r.manyAttrs(a, b)...)
 	case "Attrs0":
 		switch a % 4 {
 		case 0:
@@ -595,6 +607,7 @@ func (r *coreRun) logF(l *slog.Entry, ev coreEvent, rec map[string]any) {
 		return 1
 	}
 	takeAll()
+	sink.partial = ev.B%2 == 0 // every other fault assignment: partial writes
 	sink.failP = func(w int, p []byte) bool {
 		attempts++
 		ph := phaseOf(p)
@@ -614,10 +627,24 @@ func (r *coreRun) logF(l *slog.Entry, ev coreEvent, rec map[string]any) {
 		l.Logit(bg, slog.Level(ev.A), "fault probe", "k01", 1)
 	}()
 	sink.failP = nil
+	sink.partial = false
 	evs := []map[string]any{}
-	for _, e := range takeAll() {
+	all := takeAll()
+	// every attempt of one phase carries the same, complete payload
+	longest := map[int][]byte{}
+	for _, e := range all {
 		if e.K == "w" {
-			evs = append(evs, map[string]any{"w": e.W, "ph": phaseOf(e.payload), "fail": e.Fail})
+			ph := phaseOf(e.payload)
+			if len(e.payload) > len(longest[ph]) {
+				longest[ph] = e.payload
+			}
+		}
+	}
+	for _, e := range all {
+		if e.K == "w" {
+			ph := phaseOf(e.payload)
+			whole := len(e.payload) > 0 && e.payload[len(e.payload)-1] == '\n' && string(e.payload) == string(longest[ph])
+			evs = append(evs, map[string]any{"w": e.W, "ph": ph, "fail": e.Fail, "whole": whole})
 		}
 	}
 	rec["evs"] = evs
